@@ -73,7 +73,7 @@ def error_codes_from(f, blk):
 
 
 class GuardSite:
-    __slots__ = ("f", "bid", "cond", "fail", "ok", "codes", "op", "L", "R", "line", "neg")
+    __slots__ = ("f", "bid", "cond", "fail", "ok", "codes", "op", "L", "R", "sL", "sR", "shL", "shR", "line", "neg")
 
     def describe(self):
         return "%s %s %s -> %s" % (sorted(self.L), self.op, sorted(self.R), sorted(self.codes))
@@ -107,14 +107,26 @@ def guard_sites(f, extra_failure=None):
             g.op = op
             g.L = f.anchors(c["lhs"])
             g.R = f.anchors(c["rhs"])
+            g.sL = f.sig_anchors(c["lhs"])
+            g.sR = f.sig_anchors(c["rhs"])
+            g.shL = f.shape(c["lhs"])
+            g.shR = f.shape(c["rhs"])
         elif c is not None and c.get("k") == "call":
             g.op = ("!" if neg else "") + "call:" + (c.get("c") or "?")
             g.L = set().union(*[f.anchors(a) for a in c.get("a", [])]) if c.get("a") else set()
             g.R = set()
+            g.sL = set().union(*[f.sig_anchors(a) for a in c.get("a", [])]) if c.get("a") else set()
+            g.sR = set()
+            g.shL = f.shape(c)
+            g.shR = ""
         else:
             g.op = "zero" if neg else "nonzero"
             g.L = f.anchors(c) if c is not None else set()
             g.R = set()
+            g.sL = f.sig_anchors(c) if c is not None else set()
+            g.sR = set()
+            g.shL = f.shape(c) if c is not None else "?"
+            g.shR = ""
         out.append(g)
     return out
 
@@ -222,3 +234,85 @@ def mentions(names=(), fields=(), calls=(), consts=()):
         es = {x.get("n") for x in walk(c) if x.get("k") == "ref"}
         return set(fields) <= fs and set(calls) <= cs and set(consts) <= vs and set(names) <= es
     return p
+
+
+NOISE_CALLS = {"__builtin_expect", "ERR_isError", "ZSTD_isError", "HUF_isError", "FSE_isError", "_force_has_format_string",
+               "ZSTD_DCtx_get_bmi2", "ZSTD_cpuSupportsBmi2", "MEM_32bits", "MEM_64bits", "MEM_isLittleEndian"}
+
+
+# ---- frozen guard inventories ------------------------------------------------------------------
+def inventory_of(f, codes=None, skip_forwarded=True, extra_failure=None):
+    """today's guards of f as inventory entries (used by tools/inventory.py to propose the
+    frozen table; the table itself is reviewed and committed)."""
+    sites = guard_sites(f, extra_failure)
+    succ = success_nodes(f, extra_failure)
+    callroots = {}
+    for b, i, n in f.calls():
+        if n.get("c"):
+            callroots.setdefault(n["c"], []).append((b, i))
+    groups = {}
+    for g in sites:
+        cs = {c for c in g.codes if not c.startswith("<")}
+        if skip_forwarded and not cs:
+            continue
+        if codes is not None and not (cs & set(codes)):
+            continue
+        key = (tuple(sorted(cs)), g.op, tuple(sorted(g.sL)), tuple(sorted(g.sR)), g.shL, g.shR)
+        groups.setdefault(key, []).append(g)
+    out = []
+    for (cs, op, L, R, shL, shR), gs in sorted(groups.items()):
+        edges = {(g.bid, g.ok) for g in gs}
+        dom_succ = bool(succ) and f.must_pass(via_edges=edges, targets=succ)
+        dom_calls = sorted(c for c, roots in callroots.items()
+                           if not c.endswith("isError") and c not in NOISE_CALLS and not c.startswith("__builtin_")
+                           and f.must_pass(via_edges=edges, targets=roots))
+        out.append({"fn": f.name, "codes": list(cs), "op": op, "L": list(L), "R": list(R), "shape": [shL, shR],
+                    "success": dom_succ, "calls": dom_calls, "sites": len(gs)})
+    return out
+
+
+
+def check_inventory(prog, res, rule, entries, extra_failure=None):
+    """every frozen guard still exists (same error code, operator, anchors) and still
+    dominates what it dominated: the function's success returns and/or its calls to the
+    listed callees."""
+    by_fn = {}
+    for e in entries:
+        by_fn.setdefault(e["fn"], []).append(e)
+    for fname, es in sorted(by_fn.items()):
+        f = prog.fn(fname, es[0].get("file"))
+        sites = guard_sites(f, extra_failure)
+        succ = success_nodes(f, extra_failure)
+        for e in es:
+            want = Want(e["codes"] or None, e["op"], e["L"], e["R"])
+            gs = []
+            sh = e.get("shape")
+            for g in sites:
+                if e["codes"] and not (set(e["codes"]) & g.codes):
+                    continue
+                straight = g.op == e["op"] and set(e["L"]) <= g.sL and set(e["R"]) <= g.sR and \
+                    (sh is None or (g.shL == sh[0] and g.shR == sh[1]))
+                swapped = g.op in REL and e["op"] in REL and REL_FLIP[g.op] == e["op"] and \
+                    set(e["L"]) <= g.sR and set(e["R"]) <= g.sL and (sh is None or (g.shR == sh[0] and g.shL == sh[1]))
+                if straight or swapped:
+                    gs.append(g)
+            key = "%s: %s %s %s -> %s" % (fname, (sh or [_fmt(e["L"])])[0], e["op"], (sh or ["", _fmt(e["R"])])[1], "/".join(e["codes"]))
+            if not gs:
+                res.bad(rule, key, f.loc, "check removed or weakened in %s: the test `%s %s %s` with error exit %s is gone "
+                        "(operator, operand structure and operand anchors are the frozen signature)"
+                        % (fname, (sh or ["?"])[0], e["op"], (sh or ["", "?"])[1], "/".join(e["codes"])))
+                continue
+            edges = {(g.bid, g.ok) for g in gs}
+            problems = []
+            if e.get("success") and succ and not f.must_pass(via_edges=edges, targets=succ):
+                problems.append("a successful return is reachable without passing it")
+            for c in e.get("calls", []):
+                roots = f.call_roots(c)
+                if roots and not f.must_pass(via_edges=edges, targets=roots):
+                    problems.append("%s() is reachable without passing it" % c)
+            res.check(not problems, rule, key, "%s:%s" % (f.file, gs[0].line), "present; still dominates %s%s" % (
+                "success " if e.get("success") else "", ",".join(e.get("calls", [])[:4])), "; ".join(problems))
+
+
+def _fmt(a):
+    return "{" + ",".join(x for x in sorted(a)) + "}"
